@@ -227,7 +227,7 @@ lines = []
 n_hist = collections.Counter()
 
 
-GROUP = 25          # logical histories per forked protocol history (`renew` = fresh terminal without a fork)
+GROUP = 1           # logical histories per protocol history (`renew` = fresh terminal inside a history; the framework now batches forks itself)
 group_fill = [0]
 
 
